@@ -132,6 +132,16 @@ def histories(chk, n=None):
                 add("corpus:send-after-close", flav, o, con + ["C", GET, "W", "B"], expect=None, faithful=False)
                 add("corpus:empty-chunk", flav, o, con + ["q0:%s,%s,%s,-" % (hx(b"PUT"), hx(b"/c"), hx(b"Transfer-Encoding: chunked\r\n")), "W", "k:" + hx(b"hello") + ",-", "W", "k:-,-", "W", GET, "W"],
                     expect=None, faithful=False)
+    # the limits given to create(): body limit (for bodies without a length) and chunk limit are different things
+    big = b"x" * 100
+    chunked = b"HTTP/1.1 200 OK\r\nTransfer-Encoding: chunked\r\n\r\n64\r\n" + big + b"\r\n0\r\n\r\n"
+    unframed = b"HTTP/1.1 200 OK\r\nX: y\r\n\r\n" + big
+    for flav in ("tcp", "tls"):
+        con = ["O", "N:ok"] + (["H:ok"] if flav == "tls" else [])
+        for maxb, maxk in ((16, 4096), (4096, 16), (100, 99), (99, 100)):
+            o = "inv=1,chunk=1,period=0,reclose=0,port=80,maxb=%d,maxk=%d" % (maxb, maxk)
+            add("corpus:limits", flav, o, con + [GET, "W", "R:" + hx(chunked)], expect=None, faithful=False, want=("chunk" if maxk >= 100 else "invalid"))
+            add("corpus:limits", flav, o, con + [GET, "W", "R:" + hx(unframed)], expect=None, faithful=False, want=("incomplete" if maxb >= 100 else "invalid"))
     for i in range(n):
         tls = rng.random() < 0.4
         flav = "tls" if tls else "tcp"
@@ -331,6 +341,15 @@ def monitor(pid, h, segs, raw):
         yield "exception-into-event-loop", "an exception escaped into the event loop: %s" % [e for e in flat if e.startswith("EXCEPTION")][:1]
     if any(e.endswith("SECOND-READ") or e.endswith("SECOND-WRITE") for e in flat):
         yield "two-operations-of-one-kind-pending", "a second read/write was started while one was pending"
+    if h.get("want"):
+        got_chunk = any(e.startswith("c1:chunk=100,") for e in flat)
+        got_inv = any(e == "c1:invalid" for e in flat)
+        if h["want"] == "chunk" and (not got_chunk or got_inv):
+            yield "limit-misapplied", "a 100-byte chunk within the configured chunk limit was not delivered (options %s)" % h["opts"]
+        if h["want"] == "invalid" and (got_chunk or not got_inv):
+            yield "limit-misapplied", "a response beyond the configured limit was not rejected (options %s)" % h["opts"]
+        if h["want"] == "incomplete" and got_inv:
+            yield "limit-misapplied", "a body without a length within the configured body limit was rejected (options %s)" % h["opts"]
     stale = any(e.endswith("STALE-BUFFER") for e in flat)
     if pid == "C04":
         # every buffer sequence the client hands to the socket: a request head with its body, one chunk, the last chunk
